@@ -1673,9 +1673,12 @@ func compileLogicalOpExprAux(context *funcContext, reg int, expr ast.Expr, ec *e
 		}
 	} else {
 		reg += compileExpr(context, reg, expr, ecnone(0))
-		if !hasnextcond {
+		if !hasnextcond && !(isLastAnd && sreg != a) {
 			code.AddABC(OP_TEST, a, 0, 0^flip, sline(expr))
 		} else {
+			// the operand's value is the result when it decides the expression: it
+			// must reach the destination register, which differs from the
+			// temporary when the expression is assigned to an existing local
 			code.AddABC(OP_TESTSET, sreg, a, 0^flip, sline(expr))
 		}
 	}
